@@ -46,6 +46,8 @@ def check_topology(pp, dp, mp, fam, rng, res):
     case = dict(pp=pp, dp=dp, mp=mp, family=fam)
     # layers differ per pipeline stage (each stage owns its own layers)
     works = [make_work(rng, fam, dp * mp) for _ in range(pp)]
+    if pp > 1 and rng.random() < 0.35:
+        works[rng.randrange(pp)] = {}   # a stage without K-FAC layers (e.g. only embeddings): it must still take part in group creation
     calls = {}
     As = []
     for r in range(W):
